@@ -44,6 +44,26 @@ class Rows:
             out[k] = [t[i:j] for t in a] if isinstance(a, list) else a[i:j]
         return Rows(**out)
 
+    def buffers(self, cap):
+        """pre-allocated batch buffers (one per array, float64 / the array's own dtype) for `sl_into`"""
+        def mk(t):
+            return np.empty((cap,) + t.shape[1:], dtype=t.dtype)
+        return {k: ([mk(t) for t in a] if isinstance(a, list) else mk(a)) for k, a in self.arrs.items()}
+
+    def sl_into(self, bufs, i, j):
+        """rows i:j copied into the caller's reused buffers; returns views of the buffers (what a streaming caller that
+        recycles one batch array hands to partial_fit)"""
+        out = {}
+        for k, a in self.arrs.items():
+            if isinstance(a, list):
+                for t, b in zip(a, bufs[k]):
+                    b[: j - i] = t[i:j]
+                out[k] = [b[: j - i] for b in bufs[k]]
+            else:
+                bufs[k][: j - i] = a[i:j]
+                out[k] = bufs[k][: j - i]
+        return Rows(**out)
+
     def take(self, idx):
         out = {}
         for k, a in self.arrs.items():
